@@ -66,7 +66,7 @@ PROPS = {
     },
     "C12": {
         "suites": [("fd", 200, 2000), ("proc", 120, 1200)],
-        "title": "disjoint live/dead, self never classified nor removed, every other known member in exactly one set after an evaluation; quarantine of scheduled members in digests and deltas; removal at grace; no revival by stale heartbeats",
+        "title": "disjoint live/dead, self never classified nor removed, every other known member in exactly one set after an evaluation; quarantine of scheduled members in digests and deltas; removal at grace; no revival by stale heartbeats; for every message: a removed, remembered member is recreated only by a digest heartbeat strictly above the remembered one",
     },
     "C13": {
         "suites": [("proc", 150, 1500), ("fd", 150, 1500)],
